@@ -2,7 +2,14 @@
 COMMON_ASSUME = [
     "the Lean model is hand-written; its tie to /repo is the correspondence run of this check (same op lines through real code and model) plus the regenerated GabiModel/Generated.lean",
 ]
+CRYPTO_ASSUME = ["cryptographic conclusions rest on hypotheses that appear as explicit premises of the theorems (strong RSA / CL unforgeability, no known discrete-log relation among the public bases, SHA-256 collision resistance as an explicit collision disjunct, Fiat-Shamir forking); Lean proves the unconditional core (completeness algebra, special soundness, encoder injectivity, decision logic, range arithmetic)"]
 PROPS = {
+    "C01": {"trusted": ["math/big arithmetic is external (modelled by GabiModel.Num, compared op by op)"], "assumptions": COMMON_ASSUME + CRYPTO_ASSUME},
+    "C02": {"trusted": ["encoding/json decoding of proof lists is external; the model's decoder (GabiModel.Decode) is compared on every op"], "assumptions": COMMON_ASSUME + CRYPTO_ASSUME},
+    "C03": {"trusted": [], "assumptions": COMMON_ASSUME + CRYPTO_ASSUME},
+    "C04": {"trusted": ["crypto/rand is external: randomisers are explicit arguments of the model prover; the op replayD replays the real prover's draws (read through verif hooks) in the model prover and compares the proofs"], "assumptions": COMMON_ASSUME + CRYPTO_ASSUME},
+    "C05": {"trusted": ["ProbablyPrime(80) is an oracle (parameter isPrime of the model; executable stand-in: deterministic Miller-Rabin)"], "assumptions": COMMON_ASSUME + CRYPTO_ASSUME},
+    "C08": {"trusted": ["encoding/json is external; the model decoder is compared with it on every structural mutant"], "assumptions": COMMON_ASSUME},
     "C19": {
         "trusted": ["math/big (GCD, Exp, ModInverse, ModSqrt, ProbablyPrime) is external; ProbablyPrime is an oracle assumed correct (the model uses deterministic Miller-Rabin on the tested inputs)",
                     "the randomised inner routine sumFourSquaresSpecial is not proved: its postcondition is checked by the op sum4 on every call (exhaustively for small n)"],
